@@ -31,7 +31,7 @@ def _size_hint_impls(P):
     return out
 
 
-@obligation('C16.K5.size_hint_total', 'C16', programs=('vm',))
+@obligation('C16.K5.size_hint_total', 'C16', programs=('vm',), also=('C11',))
 def k5_size_hint(res, tier):
     """every `Enumerate::size_hint` of the standard library on an arbitrary iterator state whose inner iterators report arbitrary
     hints (any usize or none): it returns; no arithmetic overflow, no panic"""
@@ -47,12 +47,34 @@ def k5_size_hint(res, tier):
         e = W.e
         sds = [d for d in P.items.structs.get(struct, []) if d.file == rel]
 
+        def observer(norm, args, r, how, e=e):
+            if how != 'mir' and norm.endswith('::size_hint') and isinstance(r, EnumV) and 'inner_hints' in e.path_state:
+                e.path_state['inner_hints'].append(r)
+        e.call_observer = observer
+
         def path(e, f=f, struct=struct, sds=sds):
             W.W.fresh_state(e)
             e.path_state['casts'] = []
+            e.path_state['inner_hints'] = []
             me = Struct(struct, None, NameBacking('iterator_self')) if sds and sds[0].fields else Struct(struct, {}, None)
-            e.call(f, [Ref(Cell(me))])
+            r = e.call(f, [Ref(Cell(me))])
             e.check(True, f'{struct}::size_hint returns')
+            if struct == 'ZipIterator' and isinstance(r, EnumV):
+                # the reference model: a zip is as long as its shortest input
+                hints = e.path_state['inner_hints']
+                def _tag(x):
+                    if isinstance(x.tag, int):
+                        return x.tag
+                    return 1 if e.is_valid(x.tag == 1) else (0 if e.is_valid(x.tag == 0) else None)
+                tags = [_tag(h) for h in hints]
+                rt = _tag(r)
+                if hints and all(t == 1 for t in tags) and rt is not None:
+                    vals = [h.field(e, 'Some', 0, 'usize').get(e) for h in hints]
+                    mn = vals[0]
+                    for v in vals[1:]:
+                        mn = z3.If(z3.ULT(v, mn), v, mn)
+                    e.check(rt == 1 and e.is_valid(r.field(e, 'Some', 0, 'usize').get(e) == mn), 'ZipIterator::size_hint is the smallest hint of its inputs (a zip ends with its shortest input)',
+                            {'inputs': len(hints)})
             return {'iterator': struct}
         try:
             results = e.explore(path)
@@ -62,6 +84,9 @@ def k5_size_hint(res, tier):
         unsup = [r for r in results if r.kind in ('unsupported', 'budget')]
         for r in results:
             res.checks += len(r.checks)
+            for lab, okc, info in r.checks:
+                if not okc:
+                    res.fail(f'C16.K5:{struct}::size_hint: wrong value', lab + ' fails', info)
             if r.kind in ('panic', 'oob', 'ub'):
                 s = str(r.info)
                 replay = dict(kind='lay', source=F33_SRC, bad_re=PANIC_RE, expect_stdout=None) if struct == 'ChainIterator' else None
